@@ -762,9 +762,11 @@ func redisConcMerge(c *Ctx, s *cmdSched, kind string) {
 	}
 	c.op(kind + ".merge-vs-updates")
 	if final != want {
-		props := []string{"C16", "C12"}
+		// the updaters work through handles re-attached from the metadata key (C09: such handles
+		// and the creating one are one structure)
+		props := []string{"C16", "C12", "C09"}
 		if kind != "cms" && kind != "cms-wide" {
-			props = []string{"C16", "C06"}
+			props = []string{"C16", "C06", "C09"}
 		}
 		c.fail(props, kind+"-merge-loses-concurrent-update",
 			fmt.Sprintf("%s: a Merge into a shared sketch interleaved with updates through other handles: final state differs from the sequential application (an acknowledged update was overwritten)", kind),
